@@ -40,8 +40,11 @@ Lemma stmt_lay_cons pos e o y xs'' :
      ((elem_leaf pos e, o) :: ls, elem_toks pos e ++ op_toks o (pos + length (elem_text e)) ++ ts)).
 Proof. reflexivity. Qed.
 
-Lemma op_text_wstop o rest : wstop (op_text o ++ rest).
-Proof. destruct o; cbn [op_text TokenizeRender.op_text app repeat wstop]; (split; [vm_compute; reflexivity|split; discriminate]). Qed.
+Lemma op_text_wstop o rest : estop (op_text o ++ rest).
+Proof.
+  destruct o; cbn [op_text TokenizeRender.op_text app repeat]; (split; [|reflexivity]);
+    cbn [wstop]; (split; [vm_compute; reflexivity|split; [discriminate|intros E; discriminate E]]).
+Qed.
 
 Theorem toks_stmt : forall xs pos prev,
   Forall selem_ok (map fst xs) ->
@@ -50,7 +53,7 @@ Proof.
   induction xs as [|[e o] xs' IH]; intros pos prev H; [reflexivity|].
   cbn [map fst] in H. inversion H as [|x l He Hr]; subst.
   destruct xs' as [|y xs''].
-  - cbn [stmt_text stmt_lay snd]. pose proof (seg_elem 0%Z e He prev pos [] I) as E.
+  - cbn [stmt_text stmt_lay snd]. pose proof (seg_elem 0%Z e He prev pos [] (conj I eq_refl)) as E.
     rewrite app_nil_r in E. change (C0 0) with ctx0 in E. rewrite E. cbn [toks tcons]. rewrite app_nil_r. reflexivity.
   - change (stmt_text ((e, o) :: y :: xs'')) with (elem_text e ++ op_text o ++ stmt_text (y :: xs'')).
     pose proof (seg_elem 0%Z e He prev pos (op_text o ++ stmt_text (y :: xs'')) (op_text_wstop _ _)) as E.
